@@ -72,6 +72,10 @@ class C06(Prop):
         for (name, kv), (kind, idx, o) in zip([o for o in ops if o[0] == "sched"], [r for r in results if r[0] == "sched"]):
             if o.get("finished") == "*":
                 continue
+            if o.get("ok") == "0" or "finished" not in o:
+                # the model refused the observed event trace: the code no longer follows the modelled lock protocol
+                fails.append({"msg": "sched %s: event trace rejected (%s): %s" % (idx, o.get("reason", "?"), kv["events"][-160:])})
+                continue
             init = dict(parse_entries(unhx(kv["file"]))) if kv["file"] != "~" else {}
             # expected serial outcomes and final entries
             exp_out, exp_entries = {}, dict(init)
